@@ -80,6 +80,9 @@ def run(idx: ProgramIndex, rep: Report, tier: str):
     prior_jitter(idx, rep)
     point_mass_terms(idx, rep)
     decoupled_slices(idx, rep)
+    pseudo_targets(idx, rep)
+    full_covariance_in_eval(idx, rep)
+    wrapped_output_blocks(idx, rep)
     # C14-2
     vs = idx.find_class("_VariationalStrategy")
     m = 0
@@ -521,3 +524,207 @@ def decoupled_slices(idx: ProgramIndex, rep: Report):
                 probs.add("the predictive %s uses slice(s) %s of the decoupling dimension, expected %d only" % (what, sorted(sel, key=str), want))
     rep.add("C14-11", "%s:BatchDecoupledVariationalStrategy.forward[slices]" % cls.module.name, fi.where, n > 0 and not probs,
             "mean from slice 0, covariance from slice 1 on %d returning path(s)" % n if n > 0 and not probs else "; ".join(sorted(probs)) or "no constructing return found", {})
+
+
+# ---- C14-12 --------------------------------------------------------------------------------------------------------
+# strategies outside C14's quantifier (standard, unwhitened, batch-decoupled, orthogonally decoupled, CIQ, grid-interpolation, LMC, independent multitask)
+NOT_IN_C14 = {"NNVariationalStrategy": "nearest-neighbour strategy (VNNGP): not in the property's list; test points are predicted independently by construction"}
+
+
+def _strategies(idx: ProgramIndex) -> List[ClassInfo]:
+    base = idx.find_class("_VariationalStrategy")
+    return sorted([c for c in idx.subclasses(base) if c.name not in NOT_IN_C14], key=lambda c: c.qualname)
+
+
+def _only_raises(fi: FuncInfo) -> bool:
+    body = body_without_docstring(fi.node)
+    return len(body) == 1 and isinstance(body[0], ast.Raise)
+
+
+def pseudo_targets(idx: ProgramIndex, rep: Report):
+    """_VariationalStrategy.amortized_exact_gp builds the exact GP over the inducing points from `pseudo_points` and ADDS the prior mean
+    mean_module(Z) to the pseudo targets.  So pseudo_points must work with the variational mean relative to the prior mean.  Whether a
+    strategy's variational mean is relative (whitened: u = mu_Z + L e, forward uses inducing_values as they are) or absolute
+    (unwhitened: forward subtracts the prior mean of Z from inducing_values) is read off its own forward; pseudo_points must agree:
+    absolute mean -> the prior mean is subtracted before the pseudo targets are formed, relative mean -> it is not."""
+    rep.rule("C14-12", "pseudo targets are relative to the prior mean that amortized_exact_gp adds back: a strategy whose forward subtracts the prior mean from the inducing values subtracts it from the variational mean in pseudo_points too (and a whitened strategy does not)")
+    base = idx.find_class("_VariationalStrategy")
+    am = idx.method(base, "amortized_exact_gp", own=True)
+    adds = any(isinstance(a, ast.Assign) and "pseudo_target_mean" in src(a.targets[0]) and isinstance(a.value, ast.BinOp) and isinstance(a.value.op, ast.Add) and "mean_module(" in src(a.value)
+               for a in ast.walk(am.node))
+    if not adds:
+        raise AnalysisError("C14-12: _VariationalStrategy.amortized_exact_gp no longer adds mean_module(pseudo_inputs) to the pseudo targets; the rule's premise is gone")
+    n = 0
+
+    def subtracted_from(fn: ast.AST, is_target) -> List[ast.AST]:
+        out = []
+        for x in ast.walk(fn):
+            if isinstance(x, ast.BinOp) and isinstance(x.op, ast.Sub) and is_target(x.left):
+                out.append(x.right)
+            if isinstance(x, ast.Call) and isinstance(x.func, ast.Attribute) and x.func.attr in ("sub", "sub_") and len(x.args) == 1 and is_target(x.func.value):
+                out.append(x.args[0])
+        return out
+    for cls in _strategies(idx):
+        pp = cls.methods.get("pseudo_points")
+        fw = cls.lookup("forward")
+        if pp is None or fw is None or len(fw.params) < 4 or _only_raises(pp) or _only_raises(fw):
+            continue
+        n += 1
+        iv = fw.params[3]
+        absolute = bool(subtracted_from(fw.node, lambda e: isinstance(e, ast.Name) and e.id == iv))
+
+        def is_var_mean(e):
+            t = src(e).replace(" ", "")
+            return t in ("self.variational_distribution.mean", "self._variational_distribution.variational_mean", "self._variational_distribution().mean")
+        subs = subtracted_from(pp.node, is_var_mean)
+        def resolved(r):
+            if isinstance(r, ast.Name):
+                vs = [a.value for a in ast.walk(pp.node) if isinstance(a, ast.Assign) and any(isinstance(t, ast.Name) and t.id == r.id for t in a.targets)]
+                return " ; ".join(src(v) for v in vs)
+            return src(r)
+        prior_sub = [r for r in subs if any(k in resolved(r) for k in ("prior_distribution", "mean_module", "model.forward", "model("))]
+        reads = [x for x in ast.walk(pp.node) if isinstance(x, ast.Attribute) and is_var_mean(x)]
+        if not reads:
+            rep.add("C14-12", "%s:%s.pseudo_points" % (cls.module.name, cls.qualname), pp.where, False, "pseudo_points does not read the variational mean in a form the rule understands", {})
+            continue
+        ok = (bool(prior_sub) and len(subs) == len(reads)) if absolute else not subs
+        rep.add("C14-12", "%s:%s.pseudo_points" % (cls.module.name, cls.qualname), pp.where, ok,
+                ("forward subtracts the prior mean from the inducing values (absolute mean); pseudo_points subtracts it from the variational mean" if absolute else
+                 "forward uses the inducing values as they are (mean relative to the prior); pseudo_points does too") if ok else
+                ("forward subtracts the prior mean of the inducing points from the inducing values, i.e. the variational mean is the mean of q(u) itself, but pseudo_points forms the pseudo targets from it without subtracting the prior mean - and amortized_exact_gp adds mean_module(Z) on top: the prior mean is counted twice" if absolute else
+                 "forward treats the variational mean as relative to the prior mean, but pseudo_points subtracts `%s` from it" % src(subs[0])[:50]), {})
+    rep.floor("C14-12", "strategies with pseudo points", n, 2)
+
+
+# ---- C14-13 --------------------------------------------------------------------------------------------------------
+def _implies_training(test: ast.AST, truth: bool) -> bool:
+    """does `test == truth` imply self.training?"""
+    if isinstance(test, ast.Attribute) and chain(test) == "self.training":
+        return truth
+    if isinstance(test, ast.UnaryOp) and isinstance(test.op, ast.Not):
+        return _implies_training(test.operand, not truth)
+    if isinstance(test, ast.BoolOp) and isinstance(test.op, ast.And) and truth:
+        return any(_implies_training(v, True) for v in test.values)
+    if isinstance(test, ast.BoolOp) and isinstance(test.op, ast.Or) and not truth:
+        return any(_implies_training(v, False) for v in test.values)
+    return False
+
+
+def full_covariance_in_eval(idx: ProgramIndex, rep: Report):
+    """'full covariance in evaluation mode': a forward may return a covariance whose data-data part is only a diagonal (DiagLinearOperator
+    of variances) on paths that have tested self.training to be true (or skip_posterior_variances to be on)."""
+    from ..symbolic import inline, walk_paths
+    rep.rule("C14-13", "a variational strategy returns a diagonal-only covariance (DiagLinearOperator of predictive variances) only on paths that tested self.training (the evaluation-mode output carries the full covariance)")
+    n = 0
+    for cls in _strategies(idx):
+        fi = cls.methods.get("forward")
+        if fi is None:
+            continue
+        diag_names = set()
+        for a in ast.walk(fi.node):
+            if isinstance(a, ast.Assign) and isinstance(a.value, ast.Call) and (chain(a.value.func) or "").split(".")[-1] == "DiagLinearOperator":
+                for t in a.targets:
+                    if isinstance(t, ast.Name):
+                        diag_names.add(t.id)
+        n += 1
+        if not diag_names:
+            rep.add("C14-13", "%s:%s.forward[diagonal covariance]" % (cls.module.name, cls.qualname), fi.where, True, "forward builds no DiagLinearOperator", {}, trivial=True)
+            continue
+        bad = set()
+        npaths = 0
+
+        def kind(e, env):
+            """'diag' = the data-data part is only a diagonal"""
+            if isinstance(e, ast.Name):
+                return env.get(e.id, "other")
+            if isinstance(e, ast.Call):
+                fn = (chain(e.func) or "").split(".")[-1]
+                if fn == "DiagLinearOperator":
+                    return "diag"
+                if fn == "RootLinearOperator":
+                    return "root"
+                if fn in ("PsdSumLinearOperator", "SumLinearOperator"):
+                    ks = [kind(a, env) for a in e.args]
+                    return "diag" if "diag" in ks and all(k in ("diag", "root") for k in ks) else "other"
+                if isinstance(e.func, ast.Attribute) and e.func.attr in ("add_jitter",):
+                    return kind(e.func.value, env)
+            return "other"
+        from ..cfg import enumerate_paths
+        for path in enumerate_paths(body_without_docstring(fi.node), limit=20000):
+            if path.outcome != "return" or path.end is None or getattr(path.end, "value", None) is None:
+                continue
+            env: Dict[str, str] = {}
+            for s_ in path.steps:
+                if s_.kind in ("stmt", "partial") and isinstance(s_.node, ast.Assign):
+                    k = kind(s_.node.value, env)
+                    for t in s_.node.targets:
+                        if isinstance(t, ast.Name):
+                            env[t.id] = k
+            r = path.end.value
+            if isinstance(r, ast.Name):
+                continue
+            if not (isinstance(r, ast.Call) and (chain(r.func) or "").split(".")[-1] == "MultivariateNormal" and len(r.args) >= 2):
+                continue
+            npaths += 1
+            if kind(r.args[1], env) != "diag":
+                continue
+            tested = any(s_.kind == "assume" and _implies_training(s_.node, s_.truth) for s_ in path.steps)
+            if not tested:
+                conds = [("%s=%s" % (c, t)) for c, t in path.condition() if "training" in c or "_ngd" in c]
+                bad.add(", ".join(conds) or "unconditionally")
+        rep.add("C14-13", "%s:%s.forward[diagonal covariance]" % (cls.module.name, cls.qualname), fi.where, not bad,
+                "every path that returns a diagonal-only covariance tested self.training (%d returning paths)" % npaths if not bad else
+                "forward returns a diagonal-only covariance on a path that never tested self.training (%s): in evaluation mode all cross-covariances between test points are 0, the closed form has K_xx' - ... off the diagonal" % "; ".join(sorted(bad))[:120], {})
+    rep.floor("C14-13", "strategy forwards inspected for diagonal-only covariances", n, 6)
+
+
+# ---- C14-14 --------------------------------------------------------------------------------------------------------
+def wrapped_output_blocks(idx: ProgramIndex, rep: Report):
+    """A strategy that evaluates another strategy on [x; Z] and slices OFF-DIAGONAL blocks out of the returned covariance needs the full
+    joint covariance.  Strategies that may be wrapped must then not return a diagonal-only data covariance in training mode (C14-13 lets
+    them), or the wrapper has to reject them."""
+    rep.rule("C14-14", "a strategy that slices off-diagonal blocks out of a wrapped strategy's output only wraps strategies that return the full covariance in training mode too (or rejects the others)")
+    diag_in_training = []
+    for cls in _strategies(idx):
+        fi = cls.methods.get("forward")
+        if fi is None:
+            continue
+        for node in ast.walk(fi.node):
+            if isinstance(node, ast.If) and "self.training" in src(node.test) and not src(node.test).strip().startswith("not "):
+                if any(isinstance(c, ast.Call) and (chain(c.func) or "").split(".")[-1] == "DiagLinearOperator" for b in node.body for c in ast.walk(b)):
+                    diag_in_training.append(cls)
+                    break
+    n = 0
+    for cls in _strategies(idx):
+        fi = cls.methods.get("forward")
+        if fi is None:
+            continue
+        # the wrapped strategy's output: self.model(<cat of x and inducing points>) where self.model is called, not .forward (prior)
+        outs = set()
+        for a in ast.walk(fi.node):
+            if isinstance(a, ast.Assign) and isinstance(a.value, ast.Call) and chain(a.value.func) == "self.model" and a.value.args and "cat" in src(a.value.args[0]):
+                outs.update(t.id for t in a.targets if isinstance(t, ast.Name))
+        if not outs:
+            continue
+        covs = set()
+        for a in ast.walk(fi.node):
+            if isinstance(a, ast.Assign) and isinstance(a.value, ast.Attribute) and isinstance(a.value.value, ast.Name) and a.value.value.id in outs and "covar" in a.value.attr:
+                covs.update(t.id for t in a.targets if isinstance(t, ast.Name))
+        cross = []
+        for x in ast.walk(fi.node):
+            if isinstance(x, ast.Subscript) and isinstance(x.value, ast.Name) and x.value.id in covs and isinstance(x.slice, ast.Tuple) and len(x.slice.elts) >= 2:
+                r_, c_ = x.slice.elts[-2], x.slice.elts[-1]
+                if isinstance(r_, ast.Slice) and isinstance(c_, ast.Slice) and src(r_) != src(c_):
+                    cross.append(x)
+        if not cross:
+            continue
+        n += 1
+        rejects = any(isinstance(x, ast.Raise) for x in ast.walk(fi.node) if False)
+        init = cls.lookup("__init__")
+        guarded = init is not None and any(isinstance(c, ast.Call) and isinstance(c.func, ast.Name) and c.func.id == "isinstance" and any(d.name in src(c) for d in diag_in_training) for c in ast.walk(init.node))
+        for d in diag_in_training or [None]:
+            ok = d is None or guarded
+            rep.add("C14-14", "%s:%s.forward[off-diagonal block of the wrapped output]%s" % (cls.module.name, cls.qualname, "" if d is None else " <- " + d.qualname), fi.where, ok,
+                    "no strategy returns a diagonal-only covariance in training mode" if d is None else ("the constructor rejects %s" % d.qualname) if ok else
+                    "`%s` takes an off-diagonal block of the wrapped strategy's output, but %s.forward returns only the variances of the data part in training mode: the block loses K_xg - K_xb K_bb^-1 K_bg and the training-mode mean (and the prior block used by kl_divergence) is wrong; nothing restricts the wrapped strategy" % (" ".join(src(cross[0]).split())[:60], d.qualname), {})
+    rep.floor("C14-14", "wrappers that slice off-diagonal blocks", n, 1)
